@@ -97,10 +97,10 @@ EXTRA = {
  'C07': RDM + ' For this property: 200 sampled families (all 830 in the thorough tier).',
  'C08': RDM + ' For this property: the families with a local Close() (150 sampled).',
  'C13': RDM + ' For this property: 400 sampled families in the quick tier, all 830 twice in the thorough tier.',
- 'C06': ' The state of the attacked session is a dimension of its own (idle / a CALL of this side pending / a CALL pending with a graceful Close() parked) over truncations, random bytes, plain EOF, boundary length fields and an unsupported frame type: once the input is exhausted the pending call must have completed and Close() returned (353 cases).',
+ 'C06': ' The state of the attacked session is a dimension of its own (idle / a CALL of this side pending / a CALL pending with a graceful Close() parked) over truncations, random bytes, plain EOF, boundary length fields and an unsupported frame type: once the input is exhausted the pending call must have completed and Close() returned; class lowered: the oversized announcements after the read limit was lowered at run time on a peer with earlier traffic; class logged: well-formed frames with 11 hostile body / metadata classes to a peer that prints message details (416 cases).',
  'C09': ' A second class of placement trees varies how the global plugin lists came into being (slice with spare capacity, a plugin removed by name at either end, two plugins appended at once) with two sibling routes that are both called (27 720 scenarios, 1 500 sampled in the quick tier); a Fatalf of the framework during a legal configuration is an event the trace specification never accepts.',
  'C10': ' Class live (320 scenarios, all replayed): unknown handlers and part of the routes installed before / after / replaced after the first session exists, request rounds on the old and on a new session, the current unknown handler per round stated by Router.tla.',
- 'C11': ' Class alias (60 cases): the decoded value must still equal v after every byte of the input buffer was overwritten; class reuse (140 cases): for codecs whose capability ResetsDest holds (protobuf, plain, thrift; measured on the unchanged tree) decoding into a destination that received a larger value before must yield v (1912 cases in all).',
+ 'C11': ' Class alias (60 cases): the decoded value must still equal v after every byte of the input buffer was overwritten; class reuse (140 cases): for codecs whose capability ResetsDest holds (protobuf, plain, thrift; measured on the unchanged tree) decoding into a destination that received a larger value before must yield v; class bytesreuse: a byte-slice receiver kept across calls holds exactly the new body (1960 cases in all).',
  'C14': ' An observing-plugin profile (write hooks read Status, Output and Swap while replies arrive) and byte-body cells through the unknown-message handlers are among the race programs (43 workload programs); a report that pairs a repository access with a harness read of a value the framework handed over for good (vh.Owned*) counts.',
  'C15': ' The alphabet has 20 operations: five whose reply WRITE fails with something other than connection-closed were added (unencodable result; known / unknown route under an expired context age; known / unknown route on a connection whose writes fail): 420 histories in the quick tier.',
  'C16': ' Timing class split: the first frame arrives in two pieces (cut inside the size field, inside the header, after the header, after the public part of the credential) and the client watches during the pause: no verdict, hook or handler may precede the complete first frame; neighbour before: a valid credential of the same layout was left in the pooled receive buffer (2640 scenarios).',
